@@ -348,7 +348,17 @@ fn c17_targeted(rng: &mut Rng, c: u32, l: u32) -> Vec<Op> {
     let fill = gen::setup(rng, c, l, &gen::Profile::default());
     ops.extend(fill);
     ops.push(Op::ClearDirty);
-    match rng.below(9) {
+    match rng.below(10) {
+        9 => {
+            // one draw() call: a combining mark lands on the last cell of the row, the following
+            // character wraps away from it
+            let y = rng.range(1, l);
+            ops.push(Op::Api(SetMode(vec![7], true)));
+            ops.push(Op::Api(CursorPosition(Some(y), Some(c))));
+            ops.push(Op::Api(Draw("e".into())));
+            ops.push(Op::ClearDirty);
+            ops.push(Op::Api(Draw(format!("{}f", rng.pick(&gen::COMBINING)))));
+        }
         8 => {
             // a mode that is already set is set again: whatever changes must still be reported
             let m = *rng.pick(&[5u32, 6, 7, 25, 3]);
